@@ -7,6 +7,7 @@
 // constructor are released by the harness at the end (the count is set to the number of real handles it holds).
 #![allow(unused, static_mut_refs)]
 #![cfg(kani)]
+#![cfg(feature = "std")] // the allocator stubs forward to std::alloc::System
 // (harness metadata for macro-generated harnesses is declared with `// @reg name=... ` lines)
     use super::*;
     use alloc::boxed::Box;
@@ -547,6 +548,9 @@
     #[kani::proof]
     pub fn ptr_map_twin() {
         let a: usize = kani::any();
+        // CBMC encodes a pointer as (object:16 bits | offset:48 bits); an integer address moved onto the null object is
+        // representable only below 2^47 - which is every user-space address on the one target compiled here (x86-64)
+        kani::assume(a >= 2 && a < (1usize << 47));
         let p = core::ptr::null_mut::<u8>().wrapping_add(a);
         assert!(ptr_map(p, |x| x | KIND_VEC) as usize == a | KIND_VEC);
         assert!(ptr_map(p, |x| x & !KIND_MASK) as usize == a & !KIND_MASK);
